@@ -20,7 +20,7 @@ class CsrEvMonWorld(World):
                        "(attachment variant)", "wiring.connect (attachment variant)")
     stub_components = ("CSR initiator (seeded open-loop agent)", "event source lines (seeded)")
     fault_kinds = ("abort", "gap", "event_in_clearing_cycle", "events_between_chunks",
-                   "write_zero_mask", "read_while_events_arrive")
+                   "write_zero_mask", "read_while_events_arrive", "event_map_queried_before_complete")
     assumptions = (
         "Amaranth's Python RTL simulator executes the elaborated netlist faithfully",
         "only transaction-shaped CSR accesses are generated (complete or aborted, with gaps), "
@@ -40,7 +40,8 @@ class CsrEvMonWorld(World):
                 "srcs": [rng.choice(TRIGGERS) for _ in range(n)],
                 "trigger": rng.choice(TRIGGERS),
                 "attach": rng.wchoice([("direct", 5), ("decoder", 3), ("connect", 2)]),
-                "p_lv": rng.choice([5, 30, 60]), "hwseed": rng.bits(32)}
+                "p_lv": rng.choice([5, 30, 60]), "hwseed": rng.bits(32),
+                "peek_sources": int(rng.chance(0.15))}
 
     def gen_ops(self, rng, config, prop):
         dw = config["dw"]
@@ -67,8 +68,12 @@ class CsrEvMonWorld(World):
         n = len(config["srcs"])
         em = event.EventMap()
         srcs = [event.Source(trigger=tr, path=(f"s{i}",)) for i, tr in enumerate(config["srcs"])]
-        for s in srcs:
+        for i_, s in enumerate(srcs):
             em.add(s)
+            if config.get("peek_sources") and i_ == len(srcs) // 2:
+                list(em.sources())      # API order: the map is queried before it is complete
+                em.size
+                stats.fault("event_map_queried_before_complete")
         dut = hw.must_accept("C14", f"csr.EventMonitor({n} events, data_width={dw}, alignment="
                              f"{config['al']})", csr.EventMonitor, em, trigger=config["trigger"],
                              data_width=dw, alignment=config["al"])
